@@ -371,7 +371,7 @@ class Syntax(JupyterMixin):
         )
         _get_theme_style = self._theme.get_style_for_token
         try:
-            lexer = get_lexer_by_name(self.lexer_name)
+            lexer = get_lexer_by_name(self.lexer_name, stripnl=False, ensurenl=True)
         except ClassNotFound:
             text.append(code)
         else:
